@@ -98,10 +98,8 @@ def lowered_text(ast, roots, fnspecs, cuts=(), line_directives=True, drop_contra
     """lower the functions named by qualified name in `roots` plus callee closure.
     fnspecs: cname -> contract dict.  Returns (text, lowerer)."""
     lw = Lowerer(ast, line_directives=line_directives)
-    lw.specs = {} if drop_contracts else fnspecs
-    if drop_contracts:
-        # keep loop contracts out as well
-        lw.specs = {}
+    lw.specs = fnspecs
+    lw.no_contracts = drop_contracts
     lw.cuts = set(cuts)
     for q in roots:
         fs = ast.find_functions(q)
@@ -314,7 +312,7 @@ def run_job(job, unit, workdir, log=print):
             if not re.search(m, names):
                 raise Undecided('vacuity guard: expected obligation matching %r is missing' % m)
         und = [o for o in res.obligations if o['status'] not in ('SUCCESS', 'FAILURE')]
-        if und:
+        if und and not any(o['status'] == 'FAILURE' for o in res.obligations):
             raise Undecided('obligation status %s for %s' % (und[0]['status'], und[0]['name']))
         tot, ok, bad = res.counts()
         res.status = 'pass' if not bad else 'fail'
